@@ -382,6 +382,26 @@ pub mod verif_hooks_cc {
             _is_symmetric,
         }
     }
+    /// Same again, from an already built list of cones (lets a harness choose where the list is stored).
+    pub fn from_cone_vec<T: FloatT>(cones: Vec<SupportedCone<T>>) -> CompositeCone<T> {
+        let mut _is_symmetric = true;
+        for cone in cones.iter() {
+            _is_symmetric = _is_symmetric && cone.is_symmetric();
+        }
+        let numel = cones.iter().map(|c| c.numel()).sum();
+        let degree = cones.iter().map(|c| c.degree()).sum();
+        let rng_cones = make_rng_cones(&cones);
+        let rng_blocks = make_rng_blocks(&cones);
+        CompositeCone {
+            cones,
+            type_counts: HashMap::new(),
+            numel,
+            degree,
+            rng_cones,
+            rng_blocks,
+            _is_symmetric,
+        }
+    }
     pub fn rng_cones<T: FloatT>(c: &CompositeCone<T>) -> &[Range<usize>] {
         &c.rng_cones
     }
